@@ -488,7 +488,7 @@ def gallina_state(st):
     return t
 
 
-def run(ctx):
+def _run_own(ctx):
     ctx.level = "proof"
     proved = vlib.prove(ctx, ["Properties_C14.v"], facts=["msg", "msgtables"])
     ctx.log("proofs:", "ok" if proved else "BROKEN: " + getattr(ctx, "broken_obligation", "?"))
@@ -688,3 +688,11 @@ def is_d2(c):
         return body[p] if body[p] > ADDR_CAP else 0
     except IndexError:
         return 0
+
+
+def run(ctx):
+    """the property's own check, then the component check of the socket I/O loops (fd.c) that every request and reply of
+    this property goes through: Properties_FD.v + correspondence FdModel ~ /repo's fd.c (tools/props/fd_common.py)"""
+    _run_own(ctx)
+    from props import fd_common
+    fd_common.fd_phase(ctx)
